@@ -7,9 +7,11 @@ import (
 	"fmt"
 	"hash/fnv"
 	"os"
+	"path/filepath"
 	"reflect"
 	"runtime"
 	"sort"
+	"strconv"
 	"sync"
 	"sync/atomic"
 	"testing"
@@ -22,9 +24,9 @@ import (
 	"verif/h/krammar"
 )
 
-// The decoders are exercised on one goroutine with GOMAXPROCS(1): ReadMemStats then
-// costs under a microsecond and TotalAlloc deltas are exactly this goroutine's
-// allocations. The fuzz coordinator process (which runs no decodes) keeps its Ps.
+// The decoders are exercised on one goroutine with GOMAXPROCS(1): ReadMemStats (which
+// stops the world and flushes the allocation caches) is then cheap and TotalAlloc
+// deltas are exactly this goroutine's allocations. The fuzz coordinator process (which runs no decodes) keeps its Ps.
 func TestMain(m *testing.M) {
 	flag.Parse()
 	coordinator := false
@@ -58,10 +60,39 @@ type inputRef struct {
 	unsafe bool
 }
 
+// stopMarker is created (in the evidence directory, which the driver empties before
+// every run and reads only frag-*.json from) by the first shard that reports a
+// violation. The other shards then stop: against a decoder that lost a length guard
+// they would otherwise grind through multi-gigabyte allocations until their timeout,
+// long after the verdict is known.
+func stopMarker() string {
+	// (not during native fuzzing: the fuzz coordinator stops its workers itself)
+	if d := os.Getenv("VERIF_EV_DIR"); d != "" && os.Getenv("VERIF_FUZZ") == "" {
+		return filepath.Join(d, "c16-violation-reported")
+	}
+	return ""
+}
+
+var sawViolation atomic.Bool
+
+func markViolation() {
+	sawViolation.Store(true) // a shard that reports a violation itself always finishes
+	if p := stopMarker(); p != "" {
+		os.WriteFile(p, []byte(strconv.Itoa(os.Getpid())), 0o644)
+	}
+}
+
 func watchdog() {
 	last, same := uint64(0), 0
+	marker := stopMarker()
 	for {
 		time.Sleep(time.Second)
+		if marker != "" {
+			if _, err := os.Stat(marker); err == nil && !sawViolation.Load() {
+				fmt.Println("VERIF-INFRA: C16 shard stopped because another shard reported a violation")
+				os.Exit(2)
+			}
+		}
 		if n := decodeSeq.Load(); n != last || n%2 == 0 {
 			last, same = n, 0
 			continue
@@ -619,6 +650,7 @@ func reportSample(c krammar.Cell, kind string, in []byte, decoded bool) {
 func one(rt fataler, c krammar.Cell, kind string, in []byte) {
 	msg, decoded := evalInput(c, in)
 	if msg != "" {
+		markViolation()
 		rt.Fatalf("VERIF-VIOLATION C16 %s version %d, %s input (%d bytes) %x: %s", c.B.Name, c.V, kind, len(in), capBytes(in, 600), msg)
 	}
 	nontrivial := kind == "maxclaim" || (decoded && kind != "valid")
@@ -829,6 +861,7 @@ func fuzzOne(t *testing.T, c krammar.Cell, in []byte) {
 	}
 	msg, decoded := evalInput(c, in)
 	if msg != "" {
+		markViolation()
 		t.Fatalf("VERIF-VIOLATION C16 %s version %d, fuzz input (%d bytes) %x: %s", c.B.Name, c.V, len(in), capBytes(in, 600), msg)
 	}
 	if decoded {
